@@ -1,1 +1,507 @@
-//! C22: not implemented yet.
+//! C22 — no datagram can crash the NTP server.
+//!
+//! Engine E-IN with positional sweeps. Base datagrams: requests of the shared grammar
+//! (c16.rs) — every word of <= 1 extension-field symbol per version (thorough: <= 2 for
+//! v4/v5 without MAC variants) plus a curated list of multi-field plain and NTS layouts
+//! (valid cookies under the current/previous/expired key, placeholders, 512-bit AEAD,
+//! short/long nonces, reference-id requests, non-client modes). For every base datagram:
+//!   * every single-byte substitution at every offset with {0x00, 0xFF, b^0x80, b^0x01},
+//!   * every 16-bit length field (extension-field lengths, nonce length, ciphertext
+//!     length) set to v-4, v-1, v+1, v+4, 0, 0xFFFF,
+//!   * every truncation, and the datagram followed by 1/3/4/24/25/100 bytes of trailing data,
+//!   * for bases with a correct authenticator: the same substitutions and length edits
+//!     applied to the *plaintext* of the encrypted part before it is encrypted (so malformed
+//!     content reaches the post-decryption parser with a valid tag),
+//! each handled by the real `Server::handle` inside `common::catch`, with the daemon's
+//! request-sized buffer and with a 4096-byte buffer, under
+//! 8 server configurations x 3 synchronisation states (typical, unsynchronised, extreme but
+//! non-negative/finite values) x 2 key-set states, from IPv4 / IPv6 / IPv4-mapped clients.
+//! Oracle: the call returns (answer or ignore) — no panic.
+use std::collections::BTreeMap;
+use std::sync::Arc;
+
+use super::c16::{
+    AuthState, BIG_BUF, Built, Cfg, Findings, Fld, Handled, KeyEnv, Kind, Local, MAX_DATAGRAM, MockClock, Out, Req, Sync,
+    alphabet, build, build_with, client_ip, key_env, kind_key, make_server, run_handle, walk,
+};
+use super::common::{self, Ctx};
+use crate::{Server, ServerReason, ServerResponse};
+
+const EXTREME: Sync = Sync {
+    stratum: 15,
+    leap: 3,
+    refid: 0xFFFF_FFFF,
+    root_delay_exp: Some(40), // saturates the wire formats
+    var_base: 1e30,
+    var_linear: 1e20,
+    precision_exp: -32,
+};
+
+fn sync_states() -> [Sync; 3] {
+    [Sync::TYPICAL, Sync::UNSYNC, EXTREME]
+}
+
+#[derive(Clone, Debug, PartialEq, Eq, Hash)]
+enum Mutation {
+    None,
+    /// wire byte substitution
+    Wire(usize, u8),
+    /// wire 16-bit big-endian value
+    Len(usize, u16),
+    Trunc(usize),
+    /// n trailing bytes appended
+    Append(usize),
+    /// plaintext byte substitution before encryption
+    Plain(usize, u8),
+    /// plaintext 16-bit value before encryption
+    PlainLen(usize, u16),
+}
+
+impl Mutation {
+    fn code(&self) -> String {
+        match self {
+            Mutation::None => "none".into(),
+            Mutation::Wire(o, b) => format!("w{o}={b:02x}"),
+            Mutation::Len(o, v) => format!("L{o}={v:04x}"),
+            Mutation::Trunc(n) => format!("t{n}"),
+            Mutation::Append(n) => format!("x{n}"),
+            Mutation::Plain(o, b) => format!("p{o}={b:02x}"),
+            Mutation::PlainLen(o, v) => format!("P{o}={v:04x}"),
+        }
+    }
+    fn parse(s: &str) -> Option<Mutation> {
+        if s == "none" {
+            return Some(Mutation::None);
+        }
+        let (k, rest) = s.split_at(1);
+        let kv = |r: &str| -> Option<(usize, u32)> {
+            let (o, v) = r.split_once('=')?;
+            Some((o.parse().ok()?, u32::from_str_radix(v, 16).ok()?))
+        };
+        Some(match k {
+            "w" => {
+                let (o, v) = kv(rest)?;
+                Mutation::Wire(o, v as u8)
+            }
+            "L" => {
+                let (o, v) = kv(rest)?;
+                Mutation::Len(o, v as u16)
+            }
+            "t" => Mutation::Trunc(rest.parse().ok()?),
+            "x" => Mutation::Append(rest.parse().ok()?),
+            "p" => {
+                let (o, v) = kv(rest)?;
+                Mutation::Plain(o, v as u8)
+            }
+            "P" => {
+                let (o, v) = kv(rest)?;
+                Mutation::PlainLen(o, v as u16)
+            }
+            _ => return None,
+        })
+    }
+}
+
+fn byte_patterns(b: u8) -> Vec<u8> {
+    let mut v = vec![0x00, 0xFF, b ^ 0x80, b ^ 0x01];
+    v.sort_unstable();
+    v.dedup();
+    v.retain(|x| *x != b);
+    v
+}
+
+fn len_patterns(v: u16) -> Vec<u16> {
+    let mut out = vec![v.wrapping_sub(4), v.wrapping_sub(1), v.wrapping_add(1), v.wrapping_add(4), 0, 0xFFFF];
+    out.sort_unstable();
+    out.dedup();
+    out.retain(|x| *x != v);
+    out
+}
+
+/// offsets of the 16-bit length fields inside a plaintext made of extension fields
+fn plain_len_offsets(plain: &[u8], v5: bool) -> Vec<usize> {
+    let mut out = vec![];
+    let mut o = 0usize;
+    while o + 4 <= plain.len() {
+        out.push(o + 2);
+        let l = u16::from_be_bytes([plain[o + 2], plain[o + 3]]) as usize;
+        let wire = if v5 { (l + 3) & !3 } else { l };
+        if wire < 4 {
+            break;
+        }
+        o += wire;
+    }
+    out
+}
+
+/// All mutations of one base (the unmutated datagram first).
+fn mutations(b: &Built, req: &Req, keys: &KeyEnv) -> Vec<Mutation> {
+    let mut v = vec![Mutation::None];
+    let bytes = &b.bytes;
+    for (o, x) in bytes.iter().enumerate() {
+        for p in byte_patterns(*x) {
+            v.push(Mutation::Wire(o, p));
+        }
+    }
+    for &o in &b.len_offsets {
+        if o + 2 <= bytes.len() {
+            let cur = u16::from_be_bytes([bytes[o], bytes[o + 1]]);
+            for p in len_patterns(cur) {
+                v.push(Mutation::Len(o, p));
+            }
+        }
+    }
+    for cut in 0..bytes.len() {
+        v.push(Mutation::Trunc(cut));
+    }
+    for n in [1usize, 3, 4, 24, 25, 100] {
+        v.push(Mutation::Append(n));
+    }
+    if b.auth == AuthState::Valid && b.plain_len > 0 {
+        // recover the plaintext through the edit hook
+        let captured = std::cell::RefCell::new(Vec::new());
+        let _ = build_with(req, keys, Some(&|p: &mut Vec<u8>| *captured.borrow_mut() = p.clone()));
+        let plain = captured.into_inner();
+        for (o, x) in plain.iter().enumerate() {
+            for p in byte_patterns(*x) {
+                v.push(Mutation::Plain(o, p));
+            }
+        }
+        for o in plain_len_offsets(&plain, req.ver == 5) {
+            let cur = u16::from_be_bytes([plain[o], plain[o + 1]]);
+            for p in len_patterns(cur) {
+                v.push(Mutation::PlainLen(o, p));
+            }
+        }
+    }
+    v
+}
+
+fn apply(m: &Mutation, b: &Built, req: &Req, keys: &KeyEnv) -> Vec<u8> {
+    let mut bytes = b.bytes.clone();
+    match m {
+        Mutation::None => {}
+        Mutation::Wire(o, x) => {
+            if *o < bytes.len() {
+                bytes[*o] = *x;
+            }
+        }
+        Mutation::Len(o, v) => {
+            if o + 2 <= bytes.len() {
+                bytes[*o..*o + 2].copy_from_slice(&v.to_be_bytes());
+            }
+        }
+        Mutation::Trunc(n) => bytes.truncate(*n),
+        Mutation::Append(n) => bytes.extend((0..*n).map(|i| (i as u8).wrapping_mul(37).wrapping_add(0x11))),
+        Mutation::Plain(o, x) => {
+            let (o, x) = (*o, *x);
+            bytes = build_with(req, keys, Some(&move |p: &mut Vec<u8>| {
+                if o < p.len() {
+                    p[o] = x;
+                }
+            }))
+            .bytes;
+        }
+        Mutation::PlainLen(o, v) => {
+            let (o, v) = (*o, *v);
+            bytes = build_with(req, keys, Some(&move |p: &mut Vec<u8>| {
+                if o + 2 <= p.len() {
+                    p[o..o + 2].copy_from_slice(&v.to_be_bytes());
+                }
+            }))
+            .bytes;
+        }
+    }
+    bytes.truncate(MAX_DATAGRAM);
+    bytes
+}
+
+fn bases(thorough: bool) -> Vec<Req> {
+    let mut out: Vec<Req> = vec![];
+    // v3 tails
+    for mac in [0u16, 4, 20, 24] {
+        let mut r = Req::plain(3, vec![]);
+        r.mac = mac;
+        out.push(r);
+    }
+    // every word of <= 1 symbol (thorough: <= 2 symbols, no MAC)
+    for ver in [4u8, 5] {
+        let alpha = alphabet(ver, thorough);
+        let mut words: Vec<Vec<Fld>> = vec![vec![]];
+        for a in &alpha {
+            words.push(vec![a.clone()]);
+        }
+        if thorough {
+            for a in &alpha {
+                for b in &alpha {
+                    words.push(vec![a.clone(), b.clone()]);
+                }
+            }
+        }
+        for (i, w) in words.into_iter().enumerate() {
+            let mut f = w;
+            if ver == 5 {
+                f.push(Fld::Draft(true));
+            }
+            let mut r = Req::plain(ver, f);
+            r.poll = [6u8, 0, 17, 127, 255][i % 5];
+            r.mac = if ver == 4 { [0u16, 20][i % 2] } else { 0 };
+            out.push(r);
+        }
+    }
+    // curated layouts
+    for code in [
+        "v4.m3.p6.l0.g1.a0||m0",
+        "v4.m4.p6.l0.g0.a0|u32|m0",
+        "v4.m0.p6.l3.g0.a0||m24",
+        "v4.m6.p6.l0.g0.a0|u32,cC0,Aok()|m0",
+        "v5.m4.p6.l0.g0.a0|d1|m0",
+        "v4.m3.p6.l0.g0.a0|u32,cC0,Aok()|m0",
+        "v4.m3.p6.l0.g0.a0|u32,cC0,p0,p0,Aok()|m0",
+        "v4.m3.p6.l0.g0.a0|u32,cP0,Aok(p0+u32+k24)|m0",
+        "v4.m3.p6.l0.g0.a1|u32,cC0,p0,Aok(p0)|m0",
+        "v4.m3.p6.l0.g0.a0|u32,cE0,Aok(p0)|m0",
+        "v4.m3.p6.l0.g0.a0|u32,cC0,An8()|m0",
+        "v4.m3.p6.l0.g0.a0|u32,cC0,An32(p4)|m0",
+        "v4.m3.p6.l0.g0.a0|u4,cC4,p-4,Aok(cC0+r16@0+d1+z16)|m0",
+        "v4.m3.p6.l0.g0.a0|u32,cC0,Aok(),u32,k24|m20",
+        "v4.m3.p6.l0.g0.a0|u32,cC0,cC0,Aok()|m0",
+        "v4.m3.p6.l0.g0.a0|u32,cC0,Aok(),Aok()|m0",
+        "v4.m3.p6.l0.g0.a0|u32,cC0,Abad(u32)|m0",
+        "v4.m3.p6.l0.g0.a0|u0,u4,u12,k0,k24|m24",
+        "v5.m3.p6.l0.g0.a0|u32,cC0,d1,Aok()|m0",
+        "v5.m3.p6.l0.g0.a0|u5,cC0,p0,r16@0,d1,Aok(p0+u5+r6@0)|m0",
+        "v5.m3.p6.l0.g0.a1|u32,cP0,p4,d1,An8(p0)|m0",
+        "v5.m3.p6.l0.g0.a0|u32,r512@0,z16,d1|m0",
+        "v5.m3.p6.l0.g0.a0|r6@0,r16@508,u5,k24,d1|m0",
+        "v5.m3.p6.l0.g0.a0|u32,cC0,Aok(d1)|m0",
+        "v5.m3.p6.l0.g0.a0|u32,cE0,d1,Aok(p0)|m4",
+        // cookie fields shorter than any real cookie (KeyEnv::custom = 8 junk bytes, + zero fill)
+        "v4.m3.p6.l0.g0.a0|u32,cX0,Aok()|m0",
+        "v4.m3.p6.l0.g0.a0|u32,cX12,Aok()|m0",
+        "v4.m3.p6.l0.g0.a0|u32,cX16,Aok(p0)|m0",
+        "v5.m3.p6.l0.g0.a0|u32,cX0,d1,Aok()|m0",
+        "v5.m3.p6.l0.g0.a0|u32,cX13,d1,Aok()|m0",
+    ] {
+        out.push(Req::parse(code).expect("curated base"));
+    }
+    out
+}
+
+struct Env {
+    cfg: Cfg,
+    sync: Sync,
+    rotated: bool,
+}
+
+fn envs() -> Vec<Env> {
+    let mut v = vec![];
+    for cfg in Cfg::ALL {
+        for sync in sync_states() {
+            for rotated in [true, false] {
+                v.push(Env {
+                    cfg,
+                    sync,
+                    rotated,
+                });
+            }
+        }
+    }
+    v
+}
+
+fn reg_key(r: &(u8, bool, ServerReason, ServerResponse)) -> &'static str {
+    match (r.2, r.3) {
+        (ServerReason::ParseError, _) => "registered_parse_error",
+        (ServerReason::InvalidCrypto, _) => "registered_invalid_crypto",
+        (ServerReason::InternalError, _) => "registered_internal_error",
+        (ServerReason::RateLimit, _) => "registered_rate_limit",
+        (ServerReason::Policy, ServerResponse::Ignore) => "registered_policy_ignore",
+        (ServerReason::Policy, ServerResponse::Deny) => "registered_policy_deny",
+        (ServerReason::Policy, ServerResponse::ProvideTime) => "registered_time",
+        (ServerReason::Policy, ServerResponse::NTSNak) => "registered_policy_nak",
+    }
+}
+
+/// Handle one datagram under one environment with both buffer disciplines.
+fn shoot(
+    findings: &Findings,
+    loc: &mut Option<&mut Local>,
+    server: &mut Server<MockClock>,
+    ip_kind: usize,
+    datagram: &[u8],
+    trace: &dyn Fn(usize) -> String,
+) -> String {
+    let mut obs = String::new();
+    for (bi, buf_len) in [datagram.len(), BIG_BUF].into_iter().enumerate() {
+        if let Some(l) = loc.as_deref_mut() {
+            l.inc("evaluations");
+        }
+        match run_handle(server, client_ip(ip_kind + bi), datagram, buf_len) {
+            Err(p) => {
+                findings.report(
+                    "C22:panic",
+                    datagram.len(),
+                    || format!("Server::handle panicked ({p}) on {} with a {buf_len}-byte buffer", common::hex(datagram)),
+                    || trace(bi),
+                );
+                obs.push_str(&format!("b{bi}:panic({p});"));
+            }
+            Ok(h) => {
+                if let Some(l) = loc.as_deref_mut() {
+                    for r in &h.regs {
+                        l.inc(reg_key(r));
+                    }
+                    if h.regs.len() != 1 {
+                        l.inc("handles_with_other_than_one_statistics_registration");
+                    }
+                }
+                match &h.out {
+                    Out::Ignore => {
+                        if let Some(l) = loc.as_deref_mut() {
+                            l.inc("ignored");
+                        }
+                        obs.push_str(&format!("b{bi}:ignore;"));
+                    }
+                    Out::Respond(a) => {
+                        let k = walk(a).map(|w| w.kind());
+                        if let Some(l) = loc.as_deref_mut() {
+                            l.inc("answered");
+                            if let Ok(k) = k {
+                                l.inc(kind_key(k));
+                            } else {
+                                l.inc("answers_unwalkable");
+                            }
+                        }
+                        obs.push_str(&format!("b{bi}:{}b:{:?};", a.len(), k.ok()));
+                    }
+                }
+            }
+        }
+    }
+    obs
+}
+
+fn replay(ctx: &Ctx, trace: &str) -> String {
+    // "<cfg>;<sync>;k<r>;ip<k>;<req code>;<mutation>;b<0|1>"
+    let p: Vec<&str> = trace.split(';').collect();
+    if p.len() != 7 {
+        return format!("unparseable trace {trace:?}");
+    }
+    let (Some(cfg), Some(sync), Some(req), Some(m)) = (Cfg::parse(p[0]), Sync::parse(p[1]), Req::parse(p[4]), Mutation::parse(p[5])) else {
+        return format!("unparseable trace {trace:?}");
+    };
+    let mut keys = key_env(p[2] == "k1");
+    keys.custom = vec![0x00, 0x00, 0x00, 0x01, 0x00, 0x10, 0xAB, 0xCD];
+    let ip_kind: usize = p[3].trim_start_matches("ip").parse().unwrap_or(0);
+    let b = build(&req, &keys);
+    let datagram = apply(&m, &b, &req, &keys);
+    let mut server = make_server(cfg, &sync, &keys.server);
+    let findings = Findings::new();
+    let t = trace.to_string();
+    let obs = shoot(&findings, &mut None, &mut server, ip_kind, &datagram, &|_| t.clone());
+    findings.flush(ctx);
+    format!("{} bytes: {obs}", datagram.len())
+}
+
+#[test]
+fn check() {
+    let ctx = Ctx::new("C22");
+    if let Some(t) = common::replay_trace() {
+        let a = replay(&ctx, &t);
+        let b = replay(&ctx, &t);
+        common::report_replay("C22", &a, &b, ctx.violation_count() > 0);
+        return;
+    }
+    let thorough = !ctx.quick();
+    ctx.rule(
+        "bases: v3 tails, every word of <=1 extension-field symbol of the c16.rs alphabets for v4/v5 (thorough: <=2), 30 curated plain/NTS layouts \
+         (valid cookies under current/previous/expired keys, placeholders, both AEADs, 8/16/32-byte nonces, non-client modes); per base: the datagram itself, \
+         every byte offset x {0x00,0xFF,^0x80,^0x01}, every 16-bit length field x {-4,-1,+1,+4,0,0xFFFF}, every truncation, 1/3/4/24/25/100 trailing bytes, \
+         and (valid NTS bases) the same byte/length edits on the plaintext before encryption; each x {request-sized, 4096-byte} buffer x 8 configurations x \
+         3 synchronisation states x 2 key-set states (quick: the 48 environments are spread round-robin over the mutants of a base so that every \
+         (base, environment) pair and every (mutant) is run; thorough: full product), client address rotating over IPv4/IPv6/IPv4-mapped. \
+         Distinct & non-trivial = a (base, mutation, key set) whose datagram was answered in some environment.",
+    );
+    ctx.assume("synchronisation states are restricted to non-negative root delay and finite, non-negative variances (NtpDuration::to_bits_short asserts non-negative; the kalman filter clamps delays at MIN_DELAY)");
+    ctx.assume("key sets are the ones KeySetProvider::new/rotate can produce");
+    let findings = Findings::new();
+    let base_reqs = bases(thorough);
+    ctx.set("bases", base_reqs.len() as u64);
+    let environments = envs();
+    ctx.set("environments", environments.len() as u64);
+    let mut key_envs = [key_env(false), key_env(true)];
+    for k in key_envs.iter_mut() {
+        k.custom = vec![0x00, 0x00, 0x00, 0x01, 0x00, 0x10, 0xAB, 0xCD];
+    }
+    let full_product = thorough;
+    // work items = (base index); mutants are generated inside
+    common::par_for_with(
+        base_reqs.len() as u64,
+        1,
+        || {
+            let servers: Vec<Server<MockClock>> = environments
+                .iter()
+                .map(|e| make_server(e.cfg, &e.sync, &key_envs[e.rotated as usize].server))
+                .collect();
+            (Local::new(&ctx), servers)
+        },
+        |(loc, servers), bi| {
+            let req = &base_reqs[bi as usize];
+            for (ki, keys) in key_envs.iter().enumerate() {
+                let b = build(req, keys);
+                let muts = mutations(&b, req, keys);
+                loc.add("mutants", muts.len() as u64);
+                for (mi, m) in muts.iter().enumerate() {
+                    let datagram = apply(m, &b, req, keys);
+                    let mut past_parsing = false;
+                    // environments with this key set
+                    let env_ids: Vec<usize> = (0..environments.len()).filter(|i| environments[*i].rotated as usize == ki).collect();
+                    let chosen: Vec<usize> = if full_product || mi == 0 {
+                        env_ids.clone()
+                    } else {
+                        // round-robin: 6 environments per mutant, covering all 24 every 4 mutants
+                        (0..6).map(|j| env_ids[(mi * 6 + j) % env_ids.len()]).collect()
+                    };
+                    for ei in chosen {
+                        let e = &environments[ei];
+                        let ip_kind = (2 * mi + ei) % 3;
+                        let trace = |bi2: usize| {
+                            format!("{};{};k{};ip{};{};{};b{}", e.cfg.code(), e.sync.code(), ki, ip_kind, req.code(), m.code(), bi2)
+                        };
+                        let obs = shoot(&findings, &mut Some(&mut *loc), &mut servers[ei], ip_kind, &datagram, &trace);
+                        if obs.contains("b:") {
+                            past_parsing = true;
+                        }
+                    }
+                    if past_parsing {
+                        loc.distinct(common::hash_of(&(req, m, ki)));
+                    }
+                }
+            }
+        },
+    );
+    // samples
+    {
+        let keys = key_env(true);
+        let mut server = make_server(Cfg::Open, &Sync::TYPICAL, &keys.server);
+        for (code, m) in [
+            ("v4.m3.p6.l0.g0.a0|u32,cC0,Aok()|m0", Mutation::None),
+            ("v4.m3.p6.l0.g0.a0|u32,cC0,Aok()|m0", Mutation::Len(50, 0xFFFF)),
+            ("v4.m3.p6.l0.g0.a0|u32,cC0,p0,Aok(p0)|m0", Mutation::PlainLen(2, 0x0003)),
+            ("v5.m3.p6.l0.g0.a0|u32,r512@0,z16,d1|m0", Mutation::Wire(86, 0xFF)),
+            ("v4.m3.p6.l0.g0.a0||m0", Mutation::Append(25)),
+        ] {
+            let r = Req::parse(code).unwrap();
+            let b = build(&r, &keys);
+            let d = apply(&m, &b, &r, &keys);
+            let f = Findings::new();
+            ctx.sample(format!("{code} {} -> {}", m.code(), shoot(&f, &mut None, &mut server, 0, &d, &|_| String::new())));
+        }
+    }
+    findings.flush(&ctx);
+    ctx.set("transitions", ctx.get("evaluations"));
+    ctx.set("states", ctx.get("mutants"));
+    ctx.exhaustive(true);
+    ctx.finish();
+}
